@@ -32,7 +32,9 @@ func cmdValidity(args []string) {
 	var tmpls []*forge.Cert
 	var tids []string
 	for _, want := range []func(o *corpus.Obj) bool{
-		func(o *corpus.Obj) bool { return !o.Cert.IsCA && len(o.Cert.DNSNames) > 0 && len(o.Cert.PolicyIdentifiers) > 0 },
+		func(o *corpus.Obj) bool {
+			return !o.Cert.IsCA && len(o.Cert.DNSNames) > 0 && len(o.Cert.PolicyIdentifiers) > 0
+		},
 		func(o *corpus.Obj) bool {
 			for _, p := range o.Cert.PolicyIdentifiers {
 				if p.String() == "2.23.140.1.1" {
